@@ -24,6 +24,6 @@ echo "demo with change:    failing = [$with]"
 rm -f $wt/zz_seeded_demo_test.go
 suite=$(fails)
 echo "suite with change:   failing = [$suite]"
-cd /verif && VERIF_REPO=$wt bin/check $pid $tier > /tmp/wt-out/$pid/check_$(basename $m)_$tier.log 2>&1; rc=$?
-echo "check $pid $tier exit=$rc: $(grep -c VIOLATION /tmp/wt-out/$pid/check_$(basename $m)_$tier.log) violation lines; $(grep -E '^RESULT' /tmp/wt-out/$pid/check_$(basename $m)_$tier.log)"
+cd /verif && VERIF_REPO=$wt bin/check $pid $tier > $m/check_$tier.log 2>&1; rc=$?
+echo "check $pid $tier exit=$rc: $(grep -c VIOLATION $m/check_$tier.log) violation lines; $(grep -E '^RESULT' $m/check_$tier.log)"
 cd $wt && git checkout -q -- . && git clean -fdq
